@@ -11,6 +11,10 @@ import Glom.Model.C09Env
           "impl":Obs, "impl_verify":Obs, "impl_matches":bool|null, "impl_after":V}
          | {"spec":…, "default":…, "targets":[V…], "spec_built":…, "targets_built":[V…],
             "impl_seq":[Obs…]}        -- one Match object, consecutive glom calls
+         | {"spec":…, "default":…, "hist":[HStep…], "spec_built":…, "hist_built":[HStep…],
+            "impl_hist":[Obs|null…]}  -- one Match object; HStep: {"call":V} | {"register":[abc,class]}
+         every kind: optional "world":[[class,base]…] (user classes declared by the case),
+                     optional "copy":"copy"|"deepcopy"|"pickle" (the Match object used is that copy)
 -/
 namespace Glom.C09.Driver
 open Lean Glom Glom.MV Glom.C10 Glom.C10.Driver Glom.C09
@@ -26,6 +30,33 @@ def obs9ToJson (o : Obs9) : Json :=
     ("matches", match o.matched with | some b => Json.bool b | none => Json.null),
     ("after", vToJson o.targetAfter)]
 
+def hstepOfJson (j : Json) : Except String HStep := do
+  if let .ok t := j.getObjVal? "call" then return .call (← vOfJson t)
+  else if let .ok (.arr #[.str a, .str k]) := j.getObjVal? "register" then return .register a k
+  else throw s!"bad history step {j.compress}"
+
+def optObsOfJson (j : Json) : Except String (Option Obs) :=
+  match j with
+  | .null => .ok none
+  | _ => do return some (← obsOfJson j)
+
+def optObsToJson : Option Obs → Json
+  | none => .null
+  | some o => obsToJson o
+
+def optObsAgree : Option Obs → Option Obs → Bool
+  | none, none => true
+  | some a, some b => obsAgree a b
+  | _, _ => false
+
+/-- `[[class, base]…]`: the user classes the case declares -/
+def worldOfJson (j : Json) : Except String (List (String × String)) := do
+  match j.getObjVal? "world" with
+  | .ok (.arr a) => a.toList.mapM (fun e => match e with
+      | .arr #[.str k, .str b] => pure (k, b)
+      | _ => throw s!"bad class declaration {e.compress}")
+  | _ => pure []
+
 def run (j : Json) : Except String Json := do
   let specJ ← (match j.getObjVal? "spec_built" with
     | .ok .null => j.getObjVal? "spec"
@@ -37,39 +68,70 @@ def run (j : Json) : Except String Json := do
     | .error _ => (match j.getObjVal? "target" with | .ok v => pure v | .error _ => pure Json.null))
   let p ← specOfJson specJ
   let d ← optField j "default" argOfJson
+  -- the class table of this case: the declared user classes on top of the generated rows
+  let ct := worldRows genEnv.cls (← worldOfJson j)
+  let env := genEnv.withCls ct
+  -- the Match object that is used is a copy (copy.copy / copy.deepcopy / pickle round trip) of
+  -- the one that was built: the MODEL runs the copy as the extracted marker table says it comes
+  -- out, the PROPERTY is judged against the pattern as written (a copy decides like the original)
+  let how : String := match j.getObjValAs? String "copy" with | .ok h => h | .error _ => "none"
+  let ids := facts9.identity
+  let pc := if how == "none" then p else copySpec ids how p
+  let dc := if how == "none" || how == "copy" then d else copyDflt (markerKept ids "_MISSING" how) "_MISSING" d
+  let wf := WF genEnv && WF9 genEnv facts9
+  let tagHow := if how == "none" then "" else s!"{how}-"
+  -- a history: the same Match OBJECT on several targets, `abc.register()` calls in between;
+  -- every call is judged against the class table of its moment
+  if let .ok (.arr hs) := j.getObjVal? "hist_built" then
+    let steps ← hs.toList.mapM hstepOfJson
+    let obss ← (← arrOf (← j.getObjVal? "impl_hist")).mapM optObsOfJson
+    match ctorErr p with
+    | some e =>
+      let ok := obss == [some (Obs.ctor e.cls)]
+      return Json.mkObj [("agree", ok), ("holds", ok), ("model", obsToJson (Obs.ctor e.cls)),
+        ("branch", Json.str s!"hist-{tagHow}{specHead p}:ctor-{e.cls}"), ("wf", wf)]
+    | none =>
+      let model := obsHist env pc dc steps ct
+      let agree := model.length == obss.length && (model.zip obss).all (fun q => optObsAgree q.1 q.2)
+      let holds := checkHist p d steps ct obss
+      let firstBad := (List.range (steps.length + 1)).find? (fun n =>
+        n ≤ obss.length && !checkHist p d (steps.take n) ct (obss.take n))
+      let nreg := (steps.filter (fun s => match s with | .register .. => true | _ => false)).length
+      return Json.mkObj [("agree", agree), ("holds", holds),
+        ("model", Json.arr (model.map optObsToJson).toArray),
+        ("branch", Json.str s!"hist-{tagHow}{specHead p}:{if nreg > 0 then "register" else "calls"}"),
+        ("first_failing_step", match (if holds then none else firstBad) with
+          | some n => toJson (n - 1) | none => Json.null),
+        ("model_holds", checkHist p d steps ct model), ("wf", wf)]
   -- the same Match OBJECT evaluated on several targets, one call after the other: every call
   -- must decide its own target as if it were the only one (per-target reference)
   if let .ok (.arr ts) := j.getObjVal? "targets_built" then
     let targets ← ts.toList.mapM vOfJson
     let obss ← (← arrOf (← j.getObjVal? "impl_seq")).mapM obsOfJson
-    let ct := genEnv.cls
     match ctorErr p with
     | some e =>
       let ok := obss == [Obs.ctor e.cls]
       return Json.mkObj [("agree", ok), ("holds", ok), ("model", obsToJson (Obs.ctor e.cls)),
-        ("branch", Json.str s!"seq-{specHead p}:ctor-{e.cls}"), ("wf", WF genEnv && WF9 genEnv facts9)]
+        ("branch", Json.str s!"seq-{tagHow}{specHead p}:ctor-{e.cls}"), ("wf", wf)]
     | none =>
       if obss.length != targets.length then throw "impl_seq does not match targets"
       let rs := (targets.zip obss).map (fun q =>
         let den := denote ct (.matchS p d) q.1
-        let m := observe genEnv (matchGlom genEnv p d q.1)
-        (obsSat den.1 den.2 q.2 &&
-          (!(pureP p && d.isNone && wfV q.1) || (match q.2 with | .ok v _ => valEq v q.1 | _ => true)),
-         obsAgree m q.2, m, verdictTag den.1))
+        let m := observe env (matchGlom env pc dc q.1)
+        (checkCall ct p d q.1 q.2, obsAgree m q.2, m, verdictTag den.1))
       let firstBad := (rs.zipIdx.find? (fun r => !r.1.1)).map (·.2)
       return Json.mkObj [("agree", rs.all (·.2.1)), ("holds", rs.all (·.1)),
         ("model", Json.arr (rs.map (fun r => obsToJson r.2.2.1)).toArray),
-        ("branch", Json.str s!"seq-{specHead p}:{match rs.getLast? with | some r => r.2.2.2 | none => "empty"}"),
+        ("branch", Json.str s!"seq-{tagHow}{specHead p}:{match rs.getLast? with | some r => r.2.2.2 | none => "empty"}"),
         ("first_failing_call", match firstBad with | some i => toJson i | none => Json.null),
-        ("wf", WF genEnv && WF9 genEnv facts9)]
+        ("wf", wf)]
   let t ← vOfJson targetJ
   let main ← obsOfJson (← j.getObjVal? "impl")
-  let ct := genEnv.cls
   match ctorErr p with
   | some e =>
     let m := Obs.ctor e.cls
     return Json.mkObj [("agree", m == main), ("holds", main == m), ("model", obsToJson m),
-      ("branch", s!"{specHead p}:ctor-{e.cls}"), ("wf", WF genEnv && WF9 genEnv facts9)]
+      ("branch", s!"{tagHow}{specHead p}:ctor-{e.cls}"), ("wf", wf)]
   | none =>
     let ver ← obsOfJson (← j.getObjVal? "impl_verify")
     let mt : Option Bool := match j.getObjVal? "impl_matches" with
@@ -77,14 +139,14 @@ def run (j : Json) : Except String Json := do
       | _ => none
     let after ← vOfJson (← j.getObjVal? "impl_after")
     let implObs : Obs9 := { main := main, verify := ver, matched := mt, targetAfter := after }
-    let modelObs := observe9 genEnv p d t
+    let modelObs := observe9 env pc dc t
     let den := denote ct (.matchS p d) t
     let two := conforms ct p t || dfltOK d t
     let holds := checkC09 ct p d t implObs
     let agree := obs9Agree modelObs implObs
     return Json.mkObj [("agree", agree), ("holds", holds),
       ("model", obs9ToJson modelObs), ("model_holds", checkC09 ct p d t modelObs),
-      ("branch", s!"{specHead p}:{verdictTag den.1}"), ("conforms", two),
-      ("wf", WF genEnv && WF9 genEnv facts9)]
+      ("branch", s!"{tagHow}{specHead p}:{verdictTag den.1}"), ("conforms", two),
+      ("wf", wf)]
 
 end Glom.C09.Driver
